@@ -16,6 +16,11 @@ ArrayCtorOK(via, ds, vshape) ==
     THEN (via = "ctor" => ds = <<>>)
     ELSE vshape = Shape(ds)
 
+\* x[...] = y / x[{}] = y / x.set_values(y.values) where y's dimensions carry the SAME LETTERS as x's but one of them is
+\* another Dimension with a different number of items (e.g. "Historic Time" and "Time", both "t"): nothing can be
+\* matched by label, the call must be refused and x left as it was
+ForeignAssignOK(ds, foreignLetter) == foreignLetter \notin Range(ds)
+
 \* Stock(dims=ds, time_letter=tl, <slot>=array over slotdims)
 StockCtorOK(ds, tl, hasSlot, slotdims) ==
     /\ Len(ds) >= 1 /\ ds[1] = tl            \* time first
